@@ -47,12 +47,20 @@ Definition idk_msg (k : kind) (fv : fval) : bool :=
   | _ => true
   end.
 
+Lemma id_unmarshal_len20 raw s : id_unmarshal raw = Some s -> length s = 20%nat.
+Proof.
+  unfold id_unmarshal. destruct (unmarshal_exact GStr raw) as [g|]; [|discriminate].
+  destruct (conv_str g) as [s0|]; [|discriminate].
+  destruct (Nat.ltb_spec (length s0) 20) as [Hlt|Hge]; [discriminate|]. intros E.
+  assert (E' : s = firstn 20 s0) by congruence. rewrite E'. apply firstn_length_le. exact Hge.
+Qed.
+
 Lemma conv_kind_idk ni k v fv : conv_kind ni k v = COk fv -> idk k fv = true.
 Proof.
   destruct k; try (intros _; reflexivity).
   cbn [conv_kind idk]. intros Hc.
   apply obind_ok in Hc. destruct Hc as (raw & _ & E). apply obind_ok in E. destruct E as (s & Hs & E).
-  injection E as <-. apply of_opt_ok in Hs. unfold len20. apply Nat.eqb_eq. eapply id_unmarshal_len. exact Hs.
+  injection E as <-. apply of_opt_ok in Hs. unfold len20. apply Nat.eqb_eq. eapply id_unmarshal_len20. exact Hs.
 Qed.
 
 Lemma argsF_zero_idk fd : In fd argsF -> idk (f_kind fd) (zero_fval (f_kind fd)) = true.
@@ -93,9 +101,12 @@ Section Ids.
     - unfold inv_args. reflexivity.
     - destruct id_fields_in_schema as (I1 & I2 & I3 & _).
       destruct x as [a nn]. cbn [fst].
-      destruct (Hw _ I1) as (fv1 & G1 & K1). vm_compute in G1. injection G1 as <-.
-      destruct (Hw _ I2) as (fv2 & G2 & K2). vm_compute in G2. injection G2 as <-.
-      destruct (Hw _ I3) as (fv3 & G3 & K3). vm_compute in G3. injection G3 as <-.
+      destruct (Hw _ I1) as (fv1 & G1 & K1). destruct (Hw _ I2) as (fv2 & G2 & K2).
+      destruct (Hw _ I3) as (fv3 & G3 & K3).
+      change (get_args (f_name fd_args_id) (a, nn)) with (Some (FStr (a_id a))) in G1.
+      change (get_args (f_name fd_args_info_hash) (a, nn)) with (Some (FStr (a_info_hash a))) in G2.
+      change (get_args (f_name fd_args_target) (a, nn)) with (Some (FStr (a_target a))) in G3.
+      injection G1 as <-. injection G2 as <-. injection G3 as <-.
       cbn [idk fd_args_id fd_args_info_hash fd_args_target f_kind] in K1, K2, K3.
       unfold ids_args. rewrite K1, K2, K3. reflexivity.
   Qed.
@@ -114,7 +125,8 @@ Section Ids.
     - unfold inv_ret. reflexivity.
     - destruct id_fields_in_schema as (_ & _ & _ & I4 & _).
       destruct x as [r nn]. cbn [fst].
-      destruct (Hw _ I4) as (fv1 & G1 & K1). vm_compute in G1. injection G1 as <-.
+      destruct (Hw _ I4) as (fv1 & G1 & K1).
+      change (get_ret (f_name fd_ret_id) (r, nn)) with (Some (FStr (r_id r))) in G1. injection G1 as <-.
       cbn [idk fd_ret_id f_kind] in K1. exact K1.
   Qed.
 
@@ -123,7 +135,8 @@ Section Ids.
     conv_kind_msg ni (f_kind fd) v = COk fv -> idk_msg (f_kind fd) fv = true.
   Proof.
     intros _ Ht Hv Hc.
-    destruct (f_kind fd) as [| | | | | | | | | | | | | | | | sn | ] eqn:Ek; try reflexivity.
+    destruct (f_kind fd) eqn:Ek; try reflexivity.
+    match goal with H : ty_of_kind (KPtrStruct ?n) = _ |- _ => rename n into sn end.
     cbn [ty_of_kind conv_kind_msg idk_msg] in *.
     destruct (sid_of_name sn) as [[| |]|] eqn:Es; try discriminate; injection Ht as <-;
       inversion Hv; subst; try (exfalso; eapply H; reflexivity);
@@ -177,3 +190,366 @@ Section Ids.
     unfold conv_msg in C. apply (conv_msg_ids fs x); assumption.
   Qed.
 End Ids.
+
+(* ================================================================================================
+   Part 2 — processPacket's front end: pre-check, Unmarshal, trailing bytes tolerated
+   ================================================================================================ *)
+(* len(b) >= 2 && b[0] == 'd' *)
+Definition pre_check (b : bytes) : bool :=
+  match b with
+  | c :: _ :: _ => byte_eqb c ch_d
+  | _ => false
+  end.
+
+(* the krpc.Msg handed to the locked section of processPacket, None when the datagram is dropped *)
+Definition decoded (b : bytes) : option msg :=
+  if pre_check b then
+    match decode_msg_fixed b with
+    | DOk m => Some m
+    | DOkTrailing m _ => Some m       (* ErrUnusedTrailingBytes: the message is used *)
+    | DReject => None
+    | DPanic => None                  (* never: decode_msg_fixed_no_panic *)
+    end
+  else None.
+
+Definition packet_of_bytes (src : addr) (b : bytes) : event :=
+  EPacket src (N.of_nat (length b)) (decoded b).
+
+(* dropped before the lock is taken: not a dictionary of at least 2 bytes, or an Unmarshal error other
+   than unused trailing bytes *)
+Definition undecodable (b : bytes) : Prop := pre_check b = false \/ decode_msg_fixed b = DReject.
+
+Definition ascii_bytes (s : string) : bytes := String.list_byte_of_string s.
+Arguments ascii_bytes s%string.
+
+Lemma pre_check_spec b :
+  pre_check b = true <-> (2 <= length b)%nat /\ nth_error b 0 = Some ch_d.
+Proof.
+  destruct b as [|c [|c2 b]]; cbn [pre_check length nth_error].
+  - split; [discriminate | intros [H _]; lia].
+  - split; [discriminate | intros [H _]; lia].
+  - rewrite byte_eqb_eq. split.
+    + intros ->. split; [lia | reflexivity].
+    + intros [_ H]. congruence.
+Qed.
+
+Lemma decoded_some_iff b m :
+  decoded b = Some m <->
+  pre_check b = true /\ (decode_msg_fixed b = DOk m \/ exists n, decode_msg_fixed b = DOkTrailing m n).
+Proof.
+  unfold decoded. destruct (pre_check b).
+  - destruct (decode_msg_fixed b) as [m'|m' n| |]; split.
+    + intros [= <-]. split; [reflexivity | left; reflexivity].
+    + intros [_ [H|(n & H)]]; congruence.
+    + intros [= <-]. split; [reflexivity | right; exists n; reflexivity].
+    + intros [_ [H|(n' & H)]]; congruence.
+    + discriminate.
+    + intros [_ [H|(n' & H)]]; discriminate.
+    + discriminate.
+    + intros [_ [H|(n' & H)]]; discriminate.
+  - split; [discriminate | intros [H _]; discriminate].
+Qed.
+
+Lemma decoded_none_iff b : decoded b = None <-> undecodable b.
+Proof.
+  unfold decoded, undecodable. destruct (pre_check b).
+  - pose proof (decode_msg_fixed_no_panic b) as Hnp.
+    destruct (decode_msg_fixed b) as [m'|m' n| |]; split; intros H;
+      first [discriminate H | (right; reflexivity) | (destruct H as [H|H]; discriminate H)
+            | reflexivity | (exfalso; apply Hnp; reflexivity)].
+  - split; [intros _; left; reflexivity | reflexivity].
+Qed.
+
+(* ---- what the decoder produces is what the server proofs assume of a decoded message ---- *)
+Theorem decoded_wf_msg_in b m :
+  decode_msg_fixed b = DOk m \/ (exists n, decode_msg_fixed b = DOkTrailing m n) -> wf_msg_in m.
+Proof.
+  intros Hd.
+  assert (Hx : exists x, x_msg x = m /\
+                 (decode_xmsg_fixed b = DOk x \/ exists n, decode_xmsg_fixed b = DOkTrailing x n)).
+  { unfold decode_msg_fixed, decode_msg in Hd. fold decode_xmsg_fixed in Hd.
+    destruct (decode_xmsg_fixed b) as [x|x n| |]; destruct Hd as [Hd|(n' & Hd)]; try discriminate.
+    - injection Hd as <-. exists x. split; [reflexivity | left; reflexivity].
+    - injection Hd as <- <-. exists x. split; [reflexivity | right; exists n; reflexivity]. }
+  destruct Hx as (x & <- & Hdx).
+  destruct (decode_xmsg_ids nodeinfo_unmarshal (length b) b x (le_n _) Hdx) as (Ha & Hr).
+  split.
+  - intros a Ea. specialize (Ha a Ea). unfold ids_args, len20 in Ha.
+    apply andb_prop in Ha. destruct Ha as [Ha H3]. apply andb_prop in Ha. destruct Ha as [H1 H2].
+    apply Nat.eqb_eq in H1, H2, H3. repeat split; assumption.
+  - intros r Er. specialize (Hr r Er). unfold ids_ret, len20 in Hr. apply Nat.eqb_eq in Hr. exact Hr.
+Qed.
+
+Corollary decoded_wf b m : decoded b = Some m -> wf_msg_in m.
+Proof. intros H. apply decoded_some_iff in H. destruct H as [_ H]. exact (decoded_wf_msg_in b m H). Qed.
+
+(* the bounded form follows from the codec's own theorem as well (C15_decode_wf): kept as a cross-check
+   that the two notions of well-formedness agree on the four id widths *)
+Lemma wf_xmsg_ids x : wf_xmsg x -> wf_msg_in (x_msg x).
+Proof.
+  unfold wf_xmsg, wf_xmsgb. intros H. apply andb_prop in H. destruct H as [H _]. apply andb_prop in H. destruct H as [Hs _].
+  destruct id_fields_in_schema as (I1 & I2 & I3 & I4 & I5 & I6).
+  assert (S5 : In fd_msg_a (schema_of SMsg)) by (cbn [schema_of]; unfold msg_schema; in_literal).
+  assert (S6 : In fd_msg_r (schema_of SMsg)) by (cbn [schema_of]; unfold msg_schema; in_literal).
+  destruct (wf_struct_in SMsg get_msg wf_fieldb_msg _ _ Hs S5) as (fv5 & G5 & W5).
+  destruct (wf_struct_in SMsg get_msg wf_fieldb_msg _ _ Hs S6) as (fv6 & G6 & W6).
+  change (get_msg (f_name fd_msg_a) x) with
+    (Some (FArgs (option_map (fun a => (a, x_salt_nn x)) (m_a (x_msg x))))) in G5.
+  change (get_msg (f_name fd_msg_r) x) with
+    (Some (FRet (option_map (fun r => (r, x_rv_nn x)) (m_r (x_msg x))))) in G6.
+  injection G5 as <-. injection G6 as <-.
+  split.
+  - intros a Ea. rewrite Ea in W5. cbn [option_map] in W5.
+    change (wf_xargsb (a, x_salt_nn x) = true) in W5. unfold wf_xargsb in W5.
+    apply andb_prop in W5. destruct W5 as [Wa _].
+    assert (S1 : In fd_args_id (schema_of SArgs)) by (cbn [schema_of]; unfold args_schema; in_literal).
+    assert (S2 : In fd_args_info_hash (schema_of SArgs)) by (cbn [schema_of]; unfold args_schema; in_literal).
+    assert (S3 : In fd_args_target (schema_of SArgs)) by (cbn [schema_of]; unfold args_schema; in_literal).
+    destruct (wf_struct_in SArgs get_args wf_fieldb _ _ Wa S1) as (fv1 & G1 & W1).
+    destruct (wf_struct_in SArgs get_args wf_fieldb _ _ Wa S2) as (fv2 & G2 & W2).
+    destruct (wf_struct_in SArgs get_args wf_fieldb _ _ Wa S3) as (fv3 & G3 & W3).
+    change (get_args (f_name fd_args_id) (a, x_salt_nn x)) with (Some (FStr (a_id a))) in G1.
+    change (get_args (f_name fd_args_info_hash) (a, x_salt_nn x)) with (Some (FStr (a_info_hash a))) in G2.
+    change (get_args (f_name fd_args_target) (a, x_salt_nn x)) with (Some (FStr (a_target a))) in G3.
+    injection G1 as <-. injection G2 as <-. injection G3 as <-.
+    cbn [wf_fieldb fd_args_id fd_args_info_hash fd_args_target f_kind] in W1, W2, W3.
+    apply Nat.eqb_eq in W1, W2, W3. repeat split; assumption.
+  - intros r Er. rewrite Er in W6. cbn [option_map] in W6.
+    change (wf_xretb (r, x_rv_nn x) = true) in W6. unfold wf_xretb in W6.
+    apply andb_prop in W6. destruct W6 as [Wr _].
+    assert (S4 : In fd_ret_id (schema_of SRet)) by (cbn [schema_of]; unfold return_schema; in_literal).
+    destruct (wf_struct_in SRet get_ret wf_fieldb _ _ Wr S4) as (fv4 & G4 & W4).
+    change (get_ret (f_name fd_ret_id) (r, x_rv_nn x)) with (Some (FStr (r_id r))) in G4.
+    injection G4 as <-. cbn [wf_fieldb fd_ret_id f_kind] in W4. apply Nat.eqb_eq in W4. exact W4.
+Qed.
+
+Theorem packet_of_bytes_wf src b : wf_addr src -> wf_event (packet_of_bytes src b).
+Proof.
+  intros Hs. unfold packet_of_bytes. cbn [wf_event].
+  destruct (decoded b) as [m|] eqn:D; [|exact Hs]. split; [exact Hs | exact (decoded_wf b m D)].
+Qed.
+
+(* ================================================================================================
+   Part 3 — the server theorems over raw datagrams, for every instance of the Section parameters
+   ================================================================================================ *)
+Section ServerBytes.
+  Variable Store : Type.
+  Variable w_put : Store -> witem -> Z -> Store * put_result.
+  Variable w_get : Store -> bytes -> Z -> Store * get_result.
+  Variable sha1 : bytes -> bytes.
+  Variable id_secure : N -> bytes -> bool.
+  Variable cfg : config.
+
+  Notation sstate := (sstate Store).
+  Notation step := (step Store w_put w_get sha1 id_secure cfg).
+  Notation step_result := (step_result Store).
+  Notation run := (run Store w_put w_get sha1 id_secure cfg).
+  Notation reachable := (reachable Store w_put w_get sha1 id_secure cfg).
+  Notation wf_cfg := (wf_cfg cfg).
+  Notation wf_store_get := (wf_store_get Store w_get).
+  Notation SR := (SR Store).
+  Notation SRPanic := (SRPanic Store).
+  Notation SRBadChoice := (SRBadChoice Store).
+
+  (* ---------------------------------------------------------------- C01: no panic, any bytes *)
+  Theorem C01_total_bytes s src :
+    wf_cfg -> wf_store_get -> reachable s -> wf_addr src ->
+    forall (b : bytes) ch, step s (packet_of_bytes src b) ch <> SRPanic.
+  Proof.
+    intros Hc Hg Hr Hs b ch.
+    apply (ServerInv2.C01_total Store w_put w_get sha1 id_secure cfg s (packet_of_bytes src b) Hc Hg Hr).
+    apply packet_of_bytes_wf. exact Hs.
+  Qed.
+
+  (* [run] with the reason it stopped: the state after the longest prefix all of whose steps were
+     accepted, the outputs of that prefix, and the result of the step that was not (None: none) *)
+  Fixpoint run_trace (s : sstate) (evs : list (event * choice))
+    : sstate * list (list effect) * option step_result :=
+    match evs with
+    | [] => (s, [], None)
+    | (e, ch) :: r =>
+        match step s e ch with
+        | Server.SR _ s' out =>
+            let '(s'', outs, stop) := run_trace s' r in (s'', out :: outs, stop)
+        | bad => (s, [], Some bad)
+        end
+    end.
+
+  Lemma run_trace_spec evs : forall s s1 outs1 stop,
+    run_trace s evs = (s1, outs1, stop) ->
+    run s (firstn (length outs1) evs) = Some (s1, outs1) /\
+    match stop with
+    | None => length outs1 = length evs /\ run s evs = Some (s1, outs1)
+    | Some r => (exists e ch, nth_error evs (length outs1) = Some (e, ch) /\ step s1 e ch = r) /\
+                (forall s' o, r <> SR s' o) /\ run s evs = None
+    end.
+  Proof.
+    induction evs as [|[e ch] evs IH]; intros s s1 outs1 stop; cbn [run_trace].
+    - intros [= <- <- <-]. cbn. repeat split.
+    - destruct (Server.step _ _ _ _ _ _ s e ch) as [s' out| |] eqn:Hs.
+      + destruct (run_trace s' evs) as [[s2 outs2] stop2] eqn:Ht. intros [= <- <- <-].
+        destruct (IH _ _ _ _ Ht) as (Hp & Hstop). cbn [length firstn ServerDefs.run nth_error]. rewrite Hs, Hp.
+        split; [reflexivity|]. destruct stop2 as [r|].
+        * destruct Hstop as (He & Hn & Hrun). rewrite Hrun. repeat split; assumption.
+        * destruct Hstop as (Hl & Hrun). rewrite Hrun, Hl. split; reflexivity.
+      + intros [= <- <- <-]. cbn [length firstn ServerDefs.run nth_error]. rewrite Hs.
+        split; [reflexivity|]. split; [exists e, ch; split; [reflexivity | exact Hs]|]. split; [discriminate | reflexivity].
+      + intros [= <- <- <-]. cbn [length firstn ServerDefs.run nth_error]. rewrite Hs.
+        split; [reflexivity|]. split; [exists e, ch; split; [reflexivity | exact Hs]|]. split; [discriminate | reflexivity].
+  Qed.
+
+  (* any history of well-formed events: only a rejected choice can stop it *)
+  Lemma history_total evs : forall s,
+    wf_cfg -> wf_store_get -> reachable s -> Forall (fun ec => wf_event (fst ec)) evs ->
+    forall s1 outs1 stop, run_trace s evs = (s1, outs1, stop) ->
+    reachable s1 /\ (stop = None \/ stop = Some SRBadChoice).
+  Proof.
+    induction evs as [|[e ch] evs IH]; intros s Hc Hg Hr Hwf s1 outs1 stop; cbn [run_trace].
+    - intros [= <- <- <-]. split; [exact Hr | left; reflexivity].
+    - inversion Hwf as [|? ? Hw Hwf']; subst. cbn [fst] in Hw.
+      pose proof (ServerInv2.C01_total Store w_put w_get sha1 id_secure cfg s e Hc Hg Hr Hw ch) as Hnp.
+      destruct (Server.step _ _ _ _ _ _ s e ch) as [s' out| |] eqn:Hs.
+      + destruct (run_trace s' evs) as [[s2 outs2] stop2] eqn:Ht. intros [= <- <- <-].
+        assert (Hr' : reachable s') by (eapply reach_step; eassumption).
+        exact (IH s' Hc Hg Hr' Hwf' s2 outs2 stop2 Ht).
+      + exfalso. apply Hnp. reflexivity.
+      + intros [= <- <- <-]. split; [exact Hr | right; reflexivity].
+  Qed.
+
+  Lemma Forall_prefix {A} (P : A -> Prop) k : forall l, Forall P l -> Forall P (firstn k l).
+  Proof.
+    induction k as [|k IH]; intros l H; [constructor|].
+    destruct H as [|x l Hx Hl]; cbn [firstn]; constructor; [exact Hx | apply IH; exact Hl].
+  Qed.
+
+  (* a history of datagrams: who sent it, its bytes, and what the implementation chose *)
+  Definition datagram := (addr * bytes * choice)%type.
+  Definition dg_event (d : datagram) : event * choice :=
+    (packet_of_bytes (fst (fst d)) (snd (fst d)), snd d).
+  Definition dg_events (dgs : list datagram) : list (event * choice) := map dg_event dgs.
+  Definition wf_datagram (d : datagram) : Prop := wf_addr (fst (fst d)).
+
+  Lemma dg_events_wf dgs : Forall wf_datagram dgs -> Forall (fun ec => wf_event (fst ec)) (dg_events dgs).
+  Proof.
+    induction 1 as [|[[src b] ch] dgs Hd Hds IH]; cbn [dg_events map]; constructor; [|exact IH].
+    cbn [dg_event fst snd]. apply packet_of_bytes_wf. exact Hd.
+  Qed.
+
+  (* For every finite list of datagrams (arbitrary bytes, any source the socket can report, any
+     choices) fed to any reachable state:
+     (1) every state reached after a prefix whose steps were all accepted is reachable — so
+         C01_total_bytes applies to it again;
+     (2) the run as a whole either goes through (stop = None, [run] = Some) or stops at the first step
+         whose observed choice the model rejects (SRBadChoice), and [stop] is that very step's result;
+         it never stops at SRPanic.  In particular [run] = None only because of a rejected choice. *)
+  Theorem C01_history_bytes s (dgs : list datagram) :
+    wf_cfg -> wf_store_get -> reachable s -> Forall wf_datagram dgs ->
+    (forall k s1 outs1, run s (firstn k (dg_events dgs)) = Some (s1, outs1) -> reachable s1) /\
+    (exists s1 outs1 stop,
+       run_trace s (dg_events dgs) = (s1, outs1, stop) /\ reachable s1 /\
+       run s (firstn (length outs1) (dg_events dgs)) = Some (s1, outs1) /\
+       (stop = None \/ stop = Some SRBadChoice) /\ stop <> Some SRPanic /\
+       (stop = None <-> run s (dg_events dgs) = Some (s1, outs1)) /\
+       (stop = Some SRBadChoice <-> run s (dg_events dgs) = None) /\
+       (forall r, stop = Some r ->
+          exists src b ch, nth_error dgs (length outs1) = Some (src, b, ch) /\
+                           step s1 (packet_of_bytes src b) ch = r)).
+  Proof.
+    intros Hc Hg Hr Hwf. pose proof (dg_events_wf dgs Hwf) as Hev. split.
+    - intros k s1 outs1 Hrun.
+      apply (ServerInv2.C01_run_reachable Store w_put w_get sha1 id_secure cfg _ s s1 outs1 Hr (Forall_prefix _ k _ Hev) Hrun).
+    - destruct (run_trace s (dg_events dgs)) as [[s1 outs1] stop] eqn:Ht.
+      exists s1, outs1, stop. split; [reflexivity|].
+      destruct (history_total _ s Hc Hg Hr Hev _ _ _ Ht) as (Hr1 & Hstop).
+      destruct (run_trace_spec _ _ _ _ _ Ht) as (Hp & Hsp).
+      split; [exact Hr1|]. split; [exact Hp|]. split; [exact Hstop|].
+      split; [destruct Hstop as [->| ->]; discriminate|].
+      destruct Hstop as [->| ->].
+      + destruct Hsp as (_ & Hrun). rewrite Hrun.
+        split; [split; reflexivity|]. split; [split; discriminate | discriminate].
+      + destruct Hsp as ((e & ch & Hn & He) & _ & Hrun). rewrite Hrun.
+        split; [split; discriminate|]. split; [split; reflexivity|].
+        intros r [= <-]. unfold dg_events in Hn. rewrite nth_error_map in Hn.
+        destruct (nth_error dgs (length outs1)) as [[[src b] ch']|]; [|discriminate].
+        cbn [option_map dg_event fst snd] in Hn. injection Hn as <- <-.
+        exists src, b, ch'. split; [reflexivity | exact He].
+  Qed.
+
+  (* the same with datagrams interleaved with every other kind of (well-formed) event: API calls,
+     clock advances, query starts and ends, blocklist updates, Close *)
+  Inductive input := IDatagram (src : addr) (b : bytes) | IEvent (e : event).
+  Definition input_event (i : input) : event :=
+    match i with IDatagram src b => packet_of_bytes src b | IEvent e => e end.
+  Definition wf_input (i : input) : Prop :=
+    match i with IDatagram src _ => wf_addr src | IEvent e => wf_event e end.
+  Definition in_events (ins : list (input * choice)) : list (event * choice) :=
+    map (fun ic => (input_event (fst ic), snd ic)) ins.
+
+  Theorem C01_history_mixed s (ins : list (input * choice)) :
+    wf_cfg -> wf_store_get -> reachable s -> Forall (fun ic => wf_input (fst ic)) ins ->
+    (forall k s1 outs1, run s (firstn k (in_events ins)) = Some (s1, outs1) -> reachable s1) /\
+    (forall s1 outs1 stop, run_trace s (in_events ins) = (s1, outs1, stop) ->
+       reachable s1 /\ (stop = None \/ stop = Some SRBadChoice) /\
+       (stop = Some SRBadChoice <-> run s (in_events ins) = None)).
+  Proof.
+    intros Hc Hg Hr Hwf.
+    assert (Hev : Forall (fun ec => wf_event (fst ec)) (in_events ins)).
+    { clear -Hwf. induction Hwf as [|[i ch] ins Hi His IH]; cbn [in_events map]; constructor; [|exact IH].
+      cbn [fst snd] in *. destruct i as [src b|e]; cbn [input_event wf_input] in *;
+        [apply packet_of_bytes_wf; exact Hi | exact Hi]. }
+    split.
+    - intros k s1 outs1 Hrun.
+      apply (ServerInv2.C01_run_reachable Store w_put w_get sha1 id_secure cfg _ s s1 outs1 Hr (Forall_prefix _ k _ Hev) Hrun).
+    - intros s1 outs1 stop Ht.
+      destruct (history_total _ s Hc Hg Hr Hev _ _ _ Ht) as (Hr1 & Hstop).
+      destruct (run_trace_spec _ _ _ _ _ Ht) as (_ & Hsp).
+      split; [exact Hr1|]. split; [exact Hstop|].
+      destruct Hstop as [->| ->].
+      + destruct Hsp as (_ & ->). split; discriminate.
+      + destruct Hsp as (_ & _ & ->). split; reflexivity.
+  Qed.
+
+  (* ---------------------------------------------------------------- C01: serve-loop filters *)
+  (* a datagram that fills the whole 64 KiB read buffer, or comes from port 0, is dropped before it
+     is looked at: same state, no output, for every choice — whatever its content *)
+  Theorem C01_oversize_and_port0_bytes s src (b : bytes) ch :
+    N.of_nat (length b) = Z.to_N udp_buf \/ port src = 0%N ->
+    step s (packet_of_bytes src b) ch = SR s [].
+  Proof.
+    intros H. unfold packet_of_bytes. cbn [Server.step].
+    destruct H as [-> | ->].
+    - rewrite N.eqb_refl. reflexivity.
+    - destruct (N.eqb _ _); reflexivity.
+  Qed.
+
+  (* ---------------------------------------------------------------- C08 over raw datagrams *)
+  Theorem C08_bytes s src (b : bytes) ch s' out :
+    step s (packet_of_bytes src b) ch = SR s' out ->
+    (forall d rm k, In (ESend d rm k) out ->
+       d = src /\ exists m, decoded b = Some m /\ m_y m = s_q /\ m_t rm = m_t m) /\
+    (length (sends out) <= 1)%nat.
+  Proof.
+    intros H. split.
+    - intros d rm k Hin.
+      exact (C08_dest_and_t Store w_put w_get sha1 id_secure cfg s src _ _ ch s' out d rm k H Hin).
+    - exact (C08_at_most_one Store w_put w_get sha1 id_secure cfg s src _ _ ch s' out H).
+  Qed.
+
+  (* what is not a KRPC dictionary, or does not decode, has no effect at all, and no choice of the
+     implementation is involved *)
+  Theorem C08_bytes_undecodable_total s src (b : bytes) ch :
+    undecodable b -> step s (packet_of_bytes src b) ch = SR s [].
+  Proof.
+    intros H. apply decoded_none_iff in H. unfold packet_of_bytes. rewrite H. cbn [Server.step].
+    destruct (N.eqb _ _); [reflexivity|]. destruct (N.eqb _ _); [reflexivity|].
+    destruct (s_closed Store s); [reflexivity|]. destruct (blocked _ _); reflexivity.
+  Qed.
+
+  Theorem C08_bytes_silent_on_undecodable s src (b : bytes) ch s' out :
+    pre_check b = false \/ decode_msg_fixed b = DReject ->
+    step s (packet_of_bytes src b) ch = SR s' out -> s' = s /\ out = [].
+  Proof.
+    intros H Hs. rewrite (C08_bytes_undecodable_total s src b ch H) in Hs.
+    injection Hs as <- <-. split; reflexivity.
+  Qed.
+End ServerBytes.
